@@ -1,14 +1,14 @@
 package fold
 
 import (
-	"os"
-	"sync"
 	"fmt"
 	"go/constant"
 	"go/token"
 	"go/types"
 	"math"
+	"os"
 	"strings"
+	"sync"
 
 	"golang.org/x/tools/go/ssa"
 )
